@@ -333,8 +333,8 @@ def install_route_hooks():
 
     def mk(orig):
         @functools.wraps(orig)
-        def w(self, origin, destination):
-            r = orig(self, origin, destination)
+        def w(self, origin, destination, *a, **k):
+            r = orig(self, origin, destination, *a, **k)
             REC.add("route", {"net": self, "o": origin, "d": destination, "route": r})
             return r
 
